@@ -1,3 +1,5 @@
+use std::collections::HashSet;
+
 use ecow::{eco_format, EcoString};
 use syntax::parser::TextRange;
 
@@ -12,6 +14,7 @@ use super::{scope::Scopes, Index, IndexDatabase};
 pub struct IndexCtx<'a> {
     pub db: &'a dyn IndexDatabase,
     pub file_trace: Vec<FileId>,
+    pub indexed_files: HashSet<FileId>,
     pub symbol_map: SymbolMap,
     pub diagnostics: Vec<Diagnostic>,
     pub scopes: Scopes,
@@ -23,6 +26,7 @@ impl<'a> IndexCtx<'a> {
         Self {
             db,
             file_trace: vec![root_file],
+            indexed_files: HashSet::from([root_file]),
             symbol_map: SymbolMap::default(),
             diagnostics: Vec::new(),
             scopes: Scopes::default(),
